@@ -129,6 +129,10 @@ def pre(prog, run, rule):
             sel = ("for", t[1], t[2], t[3], dict(t[4][1])[key])
             ok, txt = _verdict(sel, ("for", "v7", P_.c(0), P_.s("N"), want))
             ob(what, ok, txt, n)
+    # layout of the two arrays: one channel per ROW (the consumers stack and index them by rows)
+    for key, axis in sorted(it.sh.get("dict_layout", {}).items()):
+        ob(f"split: '{key}' holds one channel per row", True if axis == 0 else (False if axis == 1 else None),
+           f"channel axis of '{key}' = {axis}" + ("" if axis == 0 else " (channels along the columns / unknown)"))
     # the split is re-applied with the SAME reference lists after every preprocessing step: it must not modify its arguments
     from .props.C15 import alias_effects
     eff, alias = alias_effects(prog, fi)
